@@ -22,6 +22,7 @@ def main():
         if a.replay:
             import json
             rep = json.load(open(a.replay))
+            R.is_replay = True
             mod.replay(R, rep)
         else:
             mod.run(R)
